@@ -500,6 +500,14 @@ class TableReport(ReportBase):
                 return self._get_cost_value(property_node, scenario_idx)
 
             if self.is_scenario_specific(column_id):
+                if column_id in ("start", "end") and hasattr(property_node, "get"):
+                    # A task that could not be scheduled has no dates to report (a date
+                    # given in the project file is a request, not a result).
+                    try:
+                        if property_node.get("scheduled", scenario_idx) is False:
+                            return None
+                    except (ValueError, KeyError, AttributeError):
+                        pass
                 return property_node.get(column_id, scenario_idx) if hasattr(property_node, "get") else None
             else:
                 return property_node.get(column_id) if hasattr(property_node, "get") else None
